@@ -1,4 +1,4 @@
-(* Extraction of the executable models to OCaml (build/kmodel).
+(* Extraction of the preservation models to OCaml (build/kmodel). Every Extract/*.v file is run in build/extract.
    Directives used: ExtrOcamlBasic (bool, option, unit, list, prod, sumbool, sumor; andb/orb inlined) and
    ExtrOcamlNativeString (ascii => char, string => string).  Numbers stay the extracted inductives. *)
 From Coq Require Import Extraction ExtrOcamlBasic ExtrOcamlNativeString.
